@@ -249,6 +249,25 @@ def check_blocks(out, cls, p, n, runners, kmax=400):
     out.case({"class": cls, "blocks": n, "params": p}, nontrivial=(d1 is not None))
 
 
+def check_default_positions(out: Outcome, runners: list) -> None:
+    """positions PROVED for the model at the library defaults (`C04d.hddmw_default_rise`, `hddmw_default_drop`, `hddmw_drop_one_sided_never`): HDDM-W() on
+    0^30 1^k first reports drift at value 57 (both modes); on 1^30 0^k the two-sided detector at value 55, the one-sided detector never"""
+    for two_sided, first, want in ((False, 0.0, 57), (True, 0.0, 57), (True, 1.0, 55), (False, 1.0, None)):
+        r = dets.Runner("a", "HDDMW", {"two_sided_test": two_sided})
+        if r.det is None:
+            return
+        got = None
+        for t, x in enumerate([first] * 30 + [1.0 - first] * 60, 1):
+            r.update(x)
+            if r.det.drift and got is None:
+                got = t
+        if got != want:
+            out.violation(f"HDDM-W (defaults, two_sided_test={two_sided}) on {int(first)}^30 {int(1 - first)}^60: first drift at {got}, the position proved for the model is {want}",
+                          {"class": "HDDMW", "params": {"two_sided_test": two_sided}, "stream": [first] * 30 + [1.0 - first] * 60, "kind": "default-positions"})
+        runners.append(r)
+        out.case({"class": "HDDMW", "default_positions": True, "two_sided": two_sided, "first": first}, nontrivial=True)
+
+
 def run(out: Outcome) -> None:
     rng = rng_for(out.seed, "C04")
     thorough = out.tier == "thorough"
@@ -277,6 +296,7 @@ def run(out: Outcome) -> None:
             cut = rng.randint(n_long // 2, n_long - 300)
             p0, p1 = rng.choice([0.05, 0.2, 0.5]), rng.choice([0.1, 0.4, 0.9])
             check_spec(out, cls, p, [float(rng.random() < p0) for _ in range(cut)] + [float(rng.random() < p1) for _ in range(n_long - cut)], runners)
+    check_default_positions(out, runners)
     if "KF-C04-1" in out.findings:
         check_blocks(out, "HDDMW", {"alpha_d": 0.2, "alpha_w": 0.5, "lambda_": 0.1, "min_num_instances": 5}, 5, [])
     validated = corr.compare_batch(out, runners)
